@@ -201,7 +201,7 @@ theorem doWidth_error {pre : List Ref} {st : St} (hR : Reach pre st) {w : Width}
   | none => simp [doWidth] at h
   | num ds =>
     simp only [doWidth, pyInt_eq] at h
-    by_cases hl : ds.length ≤ Generated.CFormatTables.intMaxStrDigits
+    by_cases hl : IntFits ds.length
     · simp only [hl, if_true] at h
       split at h
       · cases h; exact Or.inl rfl
@@ -239,13 +239,13 @@ theorem doPrec_error {pre : List Ref} {st : St} (hR : Reach pre st) {p : Prec} {
   cases p with
   | none => simp [doPrec] at h
   | num ds =>
-    have hlen : (if ds.isEmpty then ['0'] else ds).length ≤ Generated.CFormatTables.intMaxStrDigits ↔
-        ds.length ≤ Generated.CFormatTables.intMaxStrDigits := by
+    have hlen : IntFits (if ds.isEmpty then ['0'] else ds).length ↔
+        IntFits ds.length := by
       cases ds with
-      | nil => exact ⟨fun _ => Nat.zero_le _, fun _ => by decide⟩
+      | nil => exact ⟨fun _ => Or.inr (Nat.zero_le _), fun _ => by show IntFits 1; unfold IntFits; omega⟩
       | cons d ds' => exact Iff.rfl
     simp only [doPrec, pyInt_eq] at h
-    by_cases hl : ds.length ≤ Generated.CFormatTables.intMaxStrDigits
+    by_cases hl : IntFits ds.length
     · rw [if_pos (hlen.2 hl)] at h
       simp only at h
       by_cases hv : decimal (if ds.isEmpty then ['0'] else ds) > Generated.CFormatTables.INT_MAX
